@@ -120,7 +120,8 @@ def analyze(glyphs, la, bbox, k, nest=0):
         page, objs = G.mkpage(to_float_items(glyphs, k), bb)
         container = page
     else:
-        page = LTPage(1, bb)
+        # the figure's box may lie anywhere on the page (a form placed by its matrix); the page starts at the origin
+        page = LTPage(1, (0, 0, max(bb[2], 1), max(bb[3], 1)))
         objs = [G.mkitem(s) for s in to_float_items(glyphs, k)]
         container = page
         for _ in range(nest):
@@ -523,6 +524,15 @@ def cases(draw, kind):
     if c["nest"]:
         c.setdefault("tags", []).append("in-figure:%d" % c["nest"])
     c["bbox"] = (0, 0, 612, 792)
+    if c["nest"]:
+        # where the form is placed must not matter: the same arrangement translated as a whole
+        dx, dy = draw(st.sampled_from([(0, 0), (0, 0), (800, 0), (0, 900), (300, 40), (1000, 1000)]))
+        if dx or dy:
+            for g in c["glyphs"]:
+                g["x"] = g["x"] + dx
+                g["y"] = g["y"] + dy
+            c["bbox"] = (dx, dy, dx + 612, dy + 792)
+            c["tags"].append("figure-translated")
     return c
 
 
